@@ -301,7 +301,7 @@ def repo_head():
 
 
 def write_replay(prop, seed, index, scenario, viol, original_size, n_exec, out_dir=None):
-    out_dir = out_dir or os.path.join(VERIF, 'replays')
+    out_dir = out_dir or os.environ.get('PIPESIM_REPLAY_DIR') or os.path.join(VERIF, 'replays')
     os.makedirs(out_dir, exist_ok=True)
     body = {'format': 1, 'property': prop.ID, 'clause': viol['clause'], 'key': viol['key'],
             'message': viol['message'], 'verif_seed': seed, 'run_index': index, 'scenario': scenario,
@@ -430,8 +430,9 @@ def run_check(prop, tier, verif_seed):
         coverage.update(prop.extra_coverage(total))
     ev = {'property_id': prop.ID, 'tier': tier, 'seed': verif_seed, 'level': prop.LEVEL, 'coverage': coverage,
           'assumptions': prop.ASSUMPTIONS, 'wall_s': round(wall, 2), 'violations': sum(1 for r in reported if not r['known'])}
-    os.makedirs(os.path.join(VERIF, 'evidence'), exist_ok=True)
-    evp = os.path.join(VERIF, 'evidence', '%s.json' % prop.ID)
+    evdir = os.environ.get('PIPESIM_EVIDENCE_DIR') or os.path.join(VERIF, 'evidence')
+    os.makedirs(evdir, exist_ok=True)
+    evp = os.path.join(evdir, '%s.json' % prop.ID)
     with open(evp, 'w') as f:
         json.dump(jsonable(ev), f, indent=1, sort_keys=True)
     _validate_evidence(evp)
